@@ -21,7 +21,7 @@ RULE = (
     "integer exponents) x scalar arguments as Python float / 0-d / (1,) array. Non-trivial = a boundary value "
     "occurs or the vector length is 1. Distinct = SHA-1 of the case."
 )
-BUDGET = {"quick": {"examples": 2500, "shards": 4}, "thorough": {"examples": 30000, "shards": 16}}
+BUDGET = {"quick": {"examples": 2500, "shards": 4}, "thorough": {"fuzz_runs": 3000, "examples": 30000, "shards": 16}}
 PRIMS = ("nodes.get_upstream_flow", "nodes.get_upstream_speed", "nodes.get_downstream_density", "links.get_flow",
          "links.step_density", "links.step_speed", "links.Veq", "links.controlled_Veq", "origins.step_queue",
          "origins.get_mainstream_flow", "origins.get_ramp_flow:in", "origins.get_ramp_flow:out",
@@ -127,14 +127,15 @@ def scalar_np(x, how):
     return float(x) if how == "float" else np.array(float(x)) if how == "0d" else np.array([float(x)])
 
 
-def evaluate(prim, A):
+def evaluate(prim, A, NPE=None):
     """Returns (numpy result, casadi result, scale array or float)."""
+    NPE = NPE or NP
     s = lambda x: scalar_np(x, A["scalar_as"])  # noqa: E731
     lanes, L, T = A["lanes"], A["L"], A["T"]
     rc, rm, vf, a = A["rho_crit"], A["rho_max"], A["v_free"], A["a"]
     base = prim.split(":")[0]
     grp, name = base.split(".") if "." in base else (None, base)
-    f_np = getattr(getattr(NP, grp), name) if grp else getattr(NP, name)
+    f_np = getattr(getattr(NPE, grp), name) if grp else getattr(NP, name)
     f_cs = getattr(getattr(CS, grp), name) if grp else getattr(CS, name)
     if prim == "nodes.get_upstream_flow":
         ql = A["q_lasts"]
@@ -199,6 +200,47 @@ def evaluate(prim, A):
     raise ValueError(prim)
 
 
+class _Recorder:
+    """Captures the numpy arguments of the first call so that the very same objects can be passed again."""
+
+    def __init__(self, f):
+        self.f, self.calls = f, []
+
+    def __call__(self, *a):
+        self.calls.append(a)
+        return self.f(*a)
+
+
+class _RecordingEngine:
+    def __init__(self, grp, name, rec):
+        for g in ("nodes", "links", "origins", "destinations"):
+            setattr(self, g, getattr(NP, g))
+        holder = type("H", (), {})()
+        for attr in dir(getattr(NP, grp)):
+            if not attr.startswith("_"):
+                setattr(holder, attr, getattr(getattr(NP, grp), attr))
+        setattr(holder, name, rec)
+        setattr(self, grp, holder)
+
+
+def evaluate_twice_numpy(prim, A):
+    base = prim.split(":")[0]
+    if "." not in base:
+        return None
+    grp, name = base.split(".")
+    real = getattr(getattr(NP, grp), name)
+    rec = _Recorder(real)
+    r1 = evaluate(prim, A, _RecordingEngine(grp, name, rec))[0]
+    if not rec.calls:
+        return None
+    args = rec.calls[0]
+    r1 = np.array(r1, dtype=float, copy=True)
+    snap = [a.copy() if isinstance(a, np.ndarray) else a for a in args]
+    r2 = np.array(real(*args), dtype=float, copy=True)
+    intact = all((np.array_equal(a, b, equal_nan=True) if isinstance(a, np.ndarray) else True) for a, b in zip(args, snap))
+    return r1, r2, intact
+
+
 def check_case(case, ctx):
     prim, A = case["prim"], case["args"]
     ctx.label("prim:" + prim, "scalar:" + A["scalar_as"])
@@ -233,6 +275,15 @@ def check_case(case, ctx):
     if crashed(r):
         return
     r1, r2, sc = r
+    # the same primitive evaluated again from the same numpy argument objects (the element layer evaluates
+    # e.g. an origin flow twice per step and re-uses user arrays across steps) must give the same value
+    rep = guarded(ctx, prim + ":repeat", evaluate_twice_numpy, prim, A)
+    if not crashed(rep) and rep is not None:
+        a1, a2, intact = rep
+        if not intact:
+            ctx.label("numpy-arguments-modified")  # purity of the caller's arrays is C12's business, not judged here
+        if not np.array_equal(np.asarray(a1, dtype=float), np.asarray(a2, dtype=float), equal_nan=True):
+            ctx.fail(f"{prim}:numpy-not-repeatable", f"{prim}: second evaluation from the same argument objects gives {a2!r}, first gave {a1!r}")
     x = np.atleast_1d(np.asarray(r1, dtype=float)).reshape(-1)
     y = np.array(cs.DM(r2), dtype=float).reshape(-1)
     if x.shape != y.shape:
